@@ -1,0 +1,129 @@
+//go:build verif
+// +build verif
+
+package esdt
+
+// Contracts for govc, the contract-based deductive verifier kept in /verif (see /verif/DESIGN.md).
+// Compiled only under the "verif" build tag. The generated gogo-protobuf code of the three stored
+// message types is specified against the protobuf wire format:
+//   varlen(x)   number of bytes of the base-128 varint of x
+//   fldlen(n)   size of a length-delimited field with an n-byte payload: tag byte + varint(n) + n
+//   lsumv(l,a,b) sum of fldlen(len(l[i])) for a <= i < b (repeated bytes fields)
+//   need(v)     size of an amount in the sign-and-magnitude format (data/zz_contracts_verif.go)
+// A message is assumed to be smaller than 2^30 bytes (the sizes are then computed without wrap-around).
+
+//@ def vfield(x) := ite(x != 0, 1 + varlen(x), 0)
+//@ def bfield(b) := ite(len(b) > 0, fldlen(len(b)), 0)
+//@ def szRoles(m) := lsumv(list(m.Roles), 0, len(m.Roles))
+//@ def szMeta(m) := vfield(m.Nonce) + bfield(m.Name) + bfield(m.Creator) + vfield(m.Royalties) + bfield(m.Hash) + lsumv(list(m.URIs), 0, len(m.URIs)) + bfield(m.Attributes)
+//@ def szTok(m) := vfield(m.Type) + fldlen(need(m.Value)) + bfield(m.Properties) + ite(m.TokenMetaData != nil, fldlen(szMeta(m.TokenMetaData)), 0) + bfield(m.Reserved)
+//@ def msgBound() := 1073741824
+
+//@ func sovEsdt
+//@   ensures[C14] n == varlen(x)
+
+//@ func encodeVarintEsdt
+//@   view off0 = offset
+//@   view v0 = v
+//@   requires offset <= len(dAtA) && offset - varlen(v) >= 0
+//@   loop 0 invariant base == off0 - varlen(v0) && base <= offset && offset + varlen(v) == off0
+//@   ensures[C14] r == offset - varlen(v)
+//@   modifies elems(dAtA)
+
+//@ func (m *ESDTRoles) Size
+//@   requires m != nil ==> szRoles(m) < msgBound()
+//@   loop 0 invariant n == lsumv(list(m.Roles), 0, rangeindex + 1)
+//@   ensures[C14] m == nil ==> n == 0
+//@   ensures[C14] m != nil ==> n == szRoles(m)
+
+//@ func (m *MetaData) Size
+//@   requires m != nil ==> szMeta(m) < msgBound()
+//@   loop 0 invariant n == vfield(m.Nonce) + bfield(m.Name) + bfield(m.Creator) + vfield(m.Royalties) + bfield(m.Hash) + lsumv(list(m.URIs), 0, rangeindex + 1)
+//@   ensures[C14] m == nil ==> n == 0
+//@   ensures[C14] m != nil ==> n == szMeta(m)
+
+//@ func (m *ESDigitalToken) Size
+//@   requires m != nil ==> szTok(m) < msgBound()
+//@   ensures[C14] m == nil ==> n == 0
+//@   ensures[C14] m != nil ==> n == szTok(m)
+
+//@ func (m *ESDTRoles) MarshalToSizedBuffer
+//@   results n, err
+//@   requires m != nil && szRoles(m) < msgBound() && len(dAtA) >= szRoles(m)
+//@   loop 0 invariant 0 - 1 <= iNdEx && iNdEx < len(m.Roles) && i == len(dAtA) - lsumv(list(m.Roles), iNdEx + 1, len(m.Roles))
+//@   loop 0 invariant iNdEx >= 0 ==> lsumv(list(m.Roles), iNdEx, len(m.Roles)) <= szRoles(m)
+//@   ensures[C14] err == nil && n == szRoles(m)
+//@   modifies elems(dAtA)
+
+//@ func (m *MetaData) MarshalToSizedBuffer
+//@   results n, err
+//@   requires m != nil && szMeta(m) < msgBound() && len(dAtA) >= szMeta(m)
+//@   loop 0 invariant 0 - 1 <= iNdEx && iNdEx < len(m.URIs) && i == len(dAtA) - bfield(m.Attributes) - lsumv(list(m.URIs), iNdEx + 1, len(m.URIs))
+//@   loop 0 invariant iNdEx >= 0 ==> lsumv(list(m.URIs), iNdEx, len(m.URIs)) <= lsumv(list(m.URIs), 0, len(m.URIs))
+//@   ensures[C14] err == nil && n == szMeta(m)
+//@   modifies elems(dAtA)
+
+//@ func (m *ESDigitalToken) MarshalToSizedBuffer
+//@   results n, err
+//@   requires m != nil && szTok(m) < msgBound() && len(dAtA) >= szTok(m)
+//@   ensures[C14] err == nil && n == szTok(m)
+//@   modifies elems(dAtA)
+
+//@ func (m *ESDTRoles) Marshal
+//@   requires m != nil && szRoles(m) < msgBound()
+//@   ensures[C14] err == nil && len(dAtA) == szRoles(m)
+
+//@ func (m *MetaData) Marshal
+//@   requires m != nil && szMeta(m) < msgBound()
+//@   ensures[C14] err == nil && len(dAtA) == szMeta(m)
+
+//@ func (m *ESDigitalToken) Marshal
+//@   requires m != nil && szTok(m) < msgBound()
+//@   ensures[C14] err == nil && len(dAtA) == szTok(m)
+
+// ---- decoding: arbitrary bytes yield a value or an error, never a panic (no index or slice out of range,
+// no negative or unbounded allocation); inputs are bounded by 2^30 bytes. A reused message keeps its
+// buffers only if they are private to the execution (gogo's append(m.F[:0], ...) writes them in place).
+
+//@ func skipEsdt
+//@   loop 0 invariant iNdEx >= 0
+//@   loop 1 invariant iNdEx >= 0
+//@   loop 2 invariant iNdEx >= 0
+//@   loop 3 invariant iNdEx >= 0
+//@   ensures[C14] err == nil ==> n >= 0
+
+//@ func (m *ESDTRoles) Unmarshal
+//@   requires m != nil && len(dAtA) <= 1073741824
+//@   loop 0 invariant 0 <= iNdEx && iNdEx <= l && (m.Roles == nil || arr(m.Roles) == old(arr(m.Roles)) || fresh(m.Roles))
+//@   loop 1 invariant 0 <= iNdEx && iNdEx <= l && (m.Roles == nil || arr(m.Roles) == old(arr(m.Roles)) || fresh(m.Roles))
+//@   loop 2 invariant 0 <= iNdEx && iNdEx <= l && (m.Roles == nil || arr(m.Roles) == old(arr(m.Roles)) || fresh(m.Roles))
+//@   modifies m.Roles, elems(m.Roles), new([][]byte)
+
+//@ func (m *MetaData) Unmarshal
+//@   requires m != nil && len(dAtA) <= 1073741824
+//@   requires (cap(m.Name) == 0 || private(m.Name)) && (cap(m.Creator) == 0 || private(m.Creator)) && (cap(m.Hash) == 0 || private(m.Hash)) && (cap(m.Attributes) == 0 || private(m.Attributes))
+//@   loop 0 invariant 0 <= iNdEx && iNdEx <= l && (m.URIs == nil || arr(m.URIs) == old(arr(m.URIs)) || fresh(m.URIs)) && (cap(m.Name) == 0 || private(m.Name)) && (cap(m.Creator) == 0 || private(m.Creator)) && (cap(m.Hash) == 0 || private(m.Hash)) && (cap(m.Attributes) == 0 || private(m.Attributes))
+//@   loop 1 invariant 0 <= iNdEx && iNdEx <= l && (m.URIs == nil || arr(m.URIs) == old(arr(m.URIs)) || fresh(m.URIs)) && (cap(m.Name) == 0 || private(m.Name)) && (cap(m.Creator) == 0 || private(m.Creator)) && (cap(m.Hash) == 0 || private(m.Hash)) && (cap(m.Attributes) == 0 || private(m.Attributes))
+//@   loop 2 invariant 0 <= iNdEx && iNdEx <= l && (m.URIs == nil || arr(m.URIs) == old(arr(m.URIs)) || fresh(m.URIs)) && (cap(m.Name) == 0 || private(m.Name)) && (cap(m.Creator) == 0 || private(m.Creator)) && (cap(m.Hash) == 0 || private(m.Hash)) && (cap(m.Attributes) == 0 || private(m.Attributes))
+//@   loop 3 invariant 0 <= iNdEx && iNdEx <= l && (m.URIs == nil || arr(m.URIs) == old(arr(m.URIs)) || fresh(m.URIs)) && (cap(m.Name) == 0 || private(m.Name)) && (cap(m.Creator) == 0 || private(m.Creator)) && (cap(m.Hash) == 0 || private(m.Hash)) && (cap(m.Attributes) == 0 || private(m.Attributes))
+//@   loop 4 invariant 0 <= iNdEx && iNdEx <= l && (m.URIs == nil || arr(m.URIs) == old(arr(m.URIs)) || fresh(m.URIs)) && (cap(m.Name) == 0 || private(m.Name)) && (cap(m.Creator) == 0 || private(m.Creator)) && (cap(m.Hash) == 0 || private(m.Hash)) && (cap(m.Attributes) == 0 || private(m.Attributes))
+//@   loop 5 invariant 0 <= iNdEx && iNdEx <= l && (m.URIs == nil || arr(m.URIs) == old(arr(m.URIs)) || fresh(m.URIs)) && (cap(m.Name) == 0 || private(m.Name)) && (cap(m.Creator) == 0 || private(m.Creator)) && (cap(m.Hash) == 0 || private(m.Hash)) && (cap(m.Attributes) == 0 || private(m.Attributes))
+//@   loop 6 invariant 0 <= iNdEx && iNdEx <= l && (m.URIs == nil || arr(m.URIs) == old(arr(m.URIs)) || fresh(m.URIs)) && (cap(m.Name) == 0 || private(m.Name)) && (cap(m.Creator) == 0 || private(m.Creator)) && (cap(m.Hash) == 0 || private(m.Hash)) && (cap(m.Attributes) == 0 || private(m.Attributes))
+//@   loop 7 invariant 0 <= iNdEx && iNdEx <= l && (m.URIs == nil || arr(m.URIs) == old(arr(m.URIs)) || fresh(m.URIs)) && (cap(m.Name) == 0 || private(m.Name)) && (cap(m.Creator) == 0 || private(m.Creator)) && (cap(m.Hash) == 0 || private(m.Hash)) && (cap(m.Attributes) == 0 || private(m.Attributes))
+//@   loop 8 invariant 0 <= iNdEx && iNdEx <= l && (m.URIs == nil || arr(m.URIs) == old(arr(m.URIs)) || fresh(m.URIs)) && (cap(m.Name) == 0 || private(m.Name)) && (cap(m.Creator) == 0 || private(m.Creator)) && (cap(m.Hash) == 0 || private(m.Hash)) && (cap(m.Attributes) == 0 || private(m.Attributes))
+//@   ensures (cap(m.Name) == 0 || private(m.Name)) && (cap(m.Creator) == 0 || private(m.Creator)) && (cap(m.Hash) == 0 || private(m.Hash)) && (cap(m.Attributes) == 0 || private(m.Attributes))
+//@   ensures m.URIs == nil || arr(m.URIs) == old(arr(m.URIs)) || fresh(m.URIs)
+//@   modifies m.*, elems(m.URIs), new([][]byte)
+
+//@ func (m *ESDigitalToken) Unmarshal
+//@   requires m != nil && len(dAtA) <= 1073741824
+//@   requires (cap(m.Properties) == 0 || private(m.Properties)) && (cap(m.Reserved) == 0 || private(m.Reserved))
+//@   requires m.TokenMetaData != nil ==> (cap(m.TokenMetaData.Name) == 0 || private(m.TokenMetaData.Name)) && (cap(m.TokenMetaData.Creator) == 0 || private(m.TokenMetaData.Creator)) && (cap(m.TokenMetaData.Hash) == 0 || private(m.TokenMetaData.Hash)) && (cap(m.TokenMetaData.Attributes) == 0 || private(m.TokenMetaData.Attributes))
+//@   loop 0 invariant 0 <= iNdEx && iNdEx <= l && (cap(m.Properties) == 0 || private(m.Properties)) && (cap(m.Reserved) == 0 || private(m.Reserved)) && (m.TokenMetaData == nil || m.TokenMetaData == old(m.TokenMetaData) || fresh(m.TokenMetaData)) && (m.TokenMetaData != nil ==> m.TokenMetaData.URIs == nil || (m.TokenMetaData == old(m.TokenMetaData) && arr(m.TokenMetaData.URIs) == old(arr(m.TokenMetaData.URIs))) || fresh(m.TokenMetaData.URIs)) && (m.TokenMetaData != nil ==> (cap(m.TokenMetaData.Name) == 0 || private(m.TokenMetaData.Name)) && (cap(m.TokenMetaData.Creator) == 0 || private(m.TokenMetaData.Creator)) && (cap(m.TokenMetaData.Hash) == 0 || private(m.TokenMetaData.Hash)) && (cap(m.TokenMetaData.Attributes) == 0 || private(m.TokenMetaData.Attributes)))
+//@   loop 1 invariant 0 <= iNdEx && iNdEx <= l && (cap(m.Properties) == 0 || private(m.Properties)) && (cap(m.Reserved) == 0 || private(m.Reserved)) && (m.TokenMetaData == nil || m.TokenMetaData == old(m.TokenMetaData) || fresh(m.TokenMetaData)) && (m.TokenMetaData != nil ==> m.TokenMetaData.URIs == nil || (m.TokenMetaData == old(m.TokenMetaData) && arr(m.TokenMetaData.URIs) == old(arr(m.TokenMetaData.URIs))) || fresh(m.TokenMetaData.URIs)) && (m.TokenMetaData != nil ==> (cap(m.TokenMetaData.Name) == 0 || private(m.TokenMetaData.Name)) && (cap(m.TokenMetaData.Creator) == 0 || private(m.TokenMetaData.Creator)) && (cap(m.TokenMetaData.Hash) == 0 || private(m.TokenMetaData.Hash)) && (cap(m.TokenMetaData.Attributes) == 0 || private(m.TokenMetaData.Attributes)))
+//@   loop 2 invariant 0 <= iNdEx && iNdEx <= l && (cap(m.Properties) == 0 || private(m.Properties)) && (cap(m.Reserved) == 0 || private(m.Reserved)) && (m.TokenMetaData == nil || m.TokenMetaData == old(m.TokenMetaData) || fresh(m.TokenMetaData)) && (m.TokenMetaData != nil ==> m.TokenMetaData.URIs == nil || (m.TokenMetaData == old(m.TokenMetaData) && arr(m.TokenMetaData.URIs) == old(arr(m.TokenMetaData.URIs))) || fresh(m.TokenMetaData.URIs)) && (m.TokenMetaData != nil ==> (cap(m.TokenMetaData.Name) == 0 || private(m.TokenMetaData.Name)) && (cap(m.TokenMetaData.Creator) == 0 || private(m.TokenMetaData.Creator)) && (cap(m.TokenMetaData.Hash) == 0 || private(m.TokenMetaData.Hash)) && (cap(m.TokenMetaData.Attributes) == 0 || private(m.TokenMetaData.Attributes)))
+//@   loop 3 invariant 0 <= iNdEx && iNdEx <= l && (cap(m.Properties) == 0 || private(m.Properties)) && (cap(m.Reserved) == 0 || private(m.Reserved)) && (m.TokenMetaData == nil || m.TokenMetaData == old(m.TokenMetaData) || fresh(m.TokenMetaData)) && (m.TokenMetaData != nil ==> m.TokenMetaData.URIs == nil || (m.TokenMetaData == old(m.TokenMetaData) && arr(m.TokenMetaData.URIs) == old(arr(m.TokenMetaData.URIs))) || fresh(m.TokenMetaData.URIs)) && (m.TokenMetaData != nil ==> (cap(m.TokenMetaData.Name) == 0 || private(m.TokenMetaData.Name)) && (cap(m.TokenMetaData.Creator) == 0 || private(m.TokenMetaData.Creator)) && (cap(m.TokenMetaData.Hash) == 0 || private(m.TokenMetaData.Hash)) && (cap(m.TokenMetaData.Attributes) == 0 || private(m.TokenMetaData.Attributes)))
+//@   loop 4 invariant 0 <= iNdEx && iNdEx <= l && (cap(m.Properties) == 0 || private(m.Properties)) && (cap(m.Reserved) == 0 || private(m.Reserved)) && (m.TokenMetaData == nil || m.TokenMetaData == old(m.TokenMetaData) || fresh(m.TokenMetaData)) && (m.TokenMetaData != nil ==> m.TokenMetaData.URIs == nil || (m.TokenMetaData == old(m.TokenMetaData) && arr(m.TokenMetaData.URIs) == old(arr(m.TokenMetaData.URIs))) || fresh(m.TokenMetaData.URIs)) && (m.TokenMetaData != nil ==> (cap(m.TokenMetaData.Name) == 0 || private(m.TokenMetaData.Name)) && (cap(m.TokenMetaData.Creator) == 0 || private(m.TokenMetaData.Creator)) && (cap(m.TokenMetaData.Hash) == 0 || private(m.TokenMetaData.Hash)) && (cap(m.TokenMetaData.Attributes) == 0 || private(m.TokenMetaData.Attributes)))
+//@   loop 5 invariant 0 <= iNdEx && iNdEx <= l && (cap(m.Properties) == 0 || private(m.Properties)) && (cap(m.Reserved) == 0 || private(m.Reserved)) && (m.TokenMetaData == nil || m.TokenMetaData == old(m.TokenMetaData) || fresh(m.TokenMetaData)) && (m.TokenMetaData != nil ==> m.TokenMetaData.URIs == nil || (m.TokenMetaData == old(m.TokenMetaData) && arr(m.TokenMetaData.URIs) == old(arr(m.TokenMetaData.URIs))) || fresh(m.TokenMetaData.URIs)) && (m.TokenMetaData != nil ==> (cap(m.TokenMetaData.Name) == 0 || private(m.TokenMetaData.Name)) && (cap(m.TokenMetaData.Creator) == 0 || private(m.TokenMetaData.Creator)) && (cap(m.TokenMetaData.Hash) == 0 || private(m.TokenMetaData.Hash)) && (cap(m.TokenMetaData.Attributes) == 0 || private(m.TokenMetaData.Attributes)))
+//@   loop 6 invariant 0 <= iNdEx && iNdEx <= l && (cap(m.Properties) == 0 || private(m.Properties)) && (cap(m.Reserved) == 0 || private(m.Reserved)) && (m.TokenMetaData == nil || m.TokenMetaData == old(m.TokenMetaData) || fresh(m.TokenMetaData)) && (m.TokenMetaData != nil ==> m.TokenMetaData.URIs == nil || (m.TokenMetaData == old(m.TokenMetaData) && arr(m.TokenMetaData.URIs) == old(arr(m.TokenMetaData.URIs))) || fresh(m.TokenMetaData.URIs)) && (m.TokenMetaData != nil ==> (cap(m.TokenMetaData.Name) == 0 || private(m.TokenMetaData.Name)) && (cap(m.TokenMetaData.Creator) == 0 || private(m.TokenMetaData.Creator)) && (cap(m.TokenMetaData.Hash) == 0 || private(m.TokenMetaData.Hash)) && (cap(m.TokenMetaData.Attributes) == 0 || private(m.TokenMetaData.Attributes)))
+//@   modifies m.*, m.TokenMetaData.*, elems(m.TokenMetaData.URIs), new(big.Int), new(MetaData), new([][]byte)
